@@ -426,10 +426,3 @@ func init() {
 		MinOutcomes: 1,
 	})
 }
-
-func init() {
-	register(&CheckDef{
-		ID: "C08", Build: "instr", Run: c0203Run("errors"), RunCase: c0203RunCase("errors"),
-		Rule: "preliminary", MinOutcomes: 1,
-	})
-}
